@@ -6,6 +6,7 @@ longer plans) is validated by the real SequentialPlanValidator; Coq recomputes t
 the documented semantics (oracle) and with the model of the code.
 """
 import json
+import random
 from fractions import Fraction
 from itertools import product
 
@@ -23,6 +24,116 @@ META = {
 }
 
 IMPORTS = c01.IMPORTS + ["UPV.Planning.SeqValidate", "UPV.Corr.Corr_C03"]
+
+
+# ---------------------------------------------------------------------------------------------------------------------
+# LONG plans.  UPState keeps the successor states of a plan as a chain of deltas and flattens the chain every
+# MAX_ANCESTORS (20) children, i.e. while applying the 21st, 42nd ... step of a plan: validity of a plan of >= 21 steps
+# depends on that flattening being the identity on values.  Short plans (<= 6 steps) never reach it.
+LONG_LENS = (19, 20, 21, 22, 23, 40, 41, 42, 43, 44)
+
+
+def long_plan_corpus():
+    """Hand-written problems with SCRIPTED long plans: set / reset patterns on Boolean and numeric fluents with a declared
+    default, where the reset (delete, assignment of the default, decrease back to the default) happens at steps 20..22 and
+    41..43, followed by steps / goals / metrics that read the reset fluents.  One problem per metric kind."""
+    from unified_planning.environment import Environment
+    from unified_planning.model import Fluent, Problem, InstantaneousAction, Object
+    from unified_planning.model.metrics import (MinimizeActionCosts, MinimizeExpressionOnFinalState, Oversubscription,
+                                                MinimizeSequentialPlanLength)
+    out = []
+    for kind in ("none", "length", "final", "costs", "oversub"):
+        env = Environment()
+        tm, em = env.type_manager, env.expression_manager
+        T = tm.UserType("T")
+        p = Problem("long-" + kind, env)
+        o1, o2 = Object("o1", T, env), Object("o2", T, env)
+        p.add_objects([o1, o2])
+        lamp = Fluent("lamp", tm.BoolType(), environment=env)
+        ticks = Fluent("ticks", tm.IntType(0, 100), environment=env)
+        lvl = Fluent("lvl", tm.IntType(0, 6), x=T, environment=env)
+        p.add_fluent(lamp, default_initial_value=False)
+        p.add_fluent(ticks, default_initial_value=0)
+        p.add_fluent(lvl, default_initial_value=0)
+        L, K = em.FluentExp(lamp), em.FluentExp(ticks)
+
+        def act(name, **params):
+            a = InstantaneousAction(name, _env=env, **params)
+            p.add_action(a)
+            return a
+        on = act("switch_on"); on.add_precondition(em.Not(L)); on.add_effect(L, True)
+        off = act("switch_off"); off.add_precondition(L); off.add_effect(L, False)
+        tick = act("tick"); tick.add_increase_effect(K, 1)
+        up_ = act("raise", l=T); up_.add_increase_effect(lvl(up_.parameter("l")), 2)
+        low = act("lower", l=T); low.add_precondition(em.GE(lvl(low.parameter("l")), 2)); low.add_decrease_effect(lvl(low.parameter("l")), 2)
+        clr = act("clear", l=T); clr.add_effect(lvl(clr.parameter("l")), 0)
+        dark = act("in_the_dark"); dark.add_precondition(em.Not(L)); dark.add_increase_effect(K, 1)
+        use = act("use", l=T); use.add_precondition(em.GE(lvl(use.parameter("l")), 2)); use.add_increase_effect(K, 1)
+        O1, O2 = em.ObjectExp(o1), em.ObjectExp(o2)
+        p.add_goal(em.Not(L))
+        p.add_goal(em.Equals(lvl(O1), 0))
+        if kind == "length":
+            p.add_quality_metric(MinimizeSequentialPlanLength(environment=env))
+        elif kind == "final":
+            p.add_quality_metric(MinimizeExpressionOnFinalState(em.Plus(K, em.Times(3, lvl(O1)), em.Times(5, lvl(O2))), environment=env))
+        elif kind == "costs":   # the cost of a tick reads the pre-state: the steps after a reset see the reset value
+            p.add_quality_metric(MinimizeActionCosts({tick: em.Plus(1, lvl(O1), lvl(O2)), dark: em.Int(2), low: lvl(low.parameter("l"))},
+                                                     em.Int(1), environment=env))
+        elif kind == "oversub":
+            p.add_quality_metric(Oversubscription({em.Not(L): 5, em.Equals(lvl(O2), 0): 2, em.GE(K, 21): Fraction(1, 2)}, environment=env))
+        t = ("tick", [])
+        scripts = []
+        for k in (20, 21, 22):      # the first resets are the k-th step, the second ones the (k+21)-th
+            # Boolean deleted; afterwards a step that needs it false
+            scripts.append([("switch_on", [])] + [t] * (k - 2) + [("switch_off", [])] + [t] * 2 + [("switch_on", [])] + [t] * 17
+                           + [("switch_off", [])] + [("in_the_dark", [])] + [t])
+            # counter decreased back to its default; counter assigned its default; afterwards a step that needs it >= 2
+            scripts.append([("raise", [O1])] + [t] * (k - 2) + [("lower", [O1])] + [t] + [("raise", [O2]), ("raise", [O2])] + [t] * 17
+                           + [("clear", [O2])] + [("use", [O2])] + [t])
+            # both at once
+            scripts.append([("switch_on", []), ("raise", [O1]), ("raise", [O2])] + [t] * (k - 5) + [("lower", [O2]), ("switch_off", [])]
+                           + [("clear", [O1])] + [("in_the_dark", [])] + [t] * 16 + [("raise", [O1]), ("switch_on", [])]
+                           + [("lower", [O1]), ("switch_off", [])] + [t])
+        hp = sx.HandProblem(p, "long-" + kind)
+        hp.scripts = scripts
+        out.append(hp)
+    return out
+
+
+def long_plans(gen, insts, sim, rng):
+    """Plans (tuples of indices into insts) of the LONG family for one problem: the prefixes of lengths LONG_LENS (and the
+    whole) of every scripted plan of a corpus problem; for every other problem the same prefixes of one random walk of
+    applicable steps (the walk is chosen with the simulator, the verdict on each prefix is Coq's)."""
+    index = {(a.name, tuple(str(x) for x in args)): j for j, (a, args) in enumerate(insts)}
+    scripts = getattr(gen, "scripts", None) or ([gen.script] if getattr(gen, "script", None) else [])
+    walks = [tuple(index[(name, tuple(str(x) for x in args))] for name, args in sc) for sc in scripts]
+    lens = LONG_LENS
+    if not scripts and insts and sim is not None:
+        lens = (20, 21, 22, 42, 44)
+        walk = []
+        try:
+            st = sim.get_initial_state()
+            while len(walk) < max(LONG_LENS):
+                cands = list(range(len(insts)))
+                rng.shuffle(cands)
+                nxt = None
+                for j in cands[:8]:
+                    nxt = sim.apply(st, insts[j][0], insts[j][1])
+                    if nxt is not None:
+                        walk.append(j)
+                        st = nxt
+                        break
+                if nxt is None:
+                    break
+        except Exception:  # noqa  (a step that raises is C01's business; the walk stops there)
+            pass
+        walks = [tuple(walk)]
+    out = []
+    for w in walks:
+        for n in sorted(set(x for x in lens if x < len(w)) | {len(w)}):
+            if n >= min(LONG_LENS) and w[:n] not in out:
+                out.append(w[:n])
+    return out
 
 
 def replay_plan(pi, gen, ser, insts_plan):
@@ -100,6 +211,7 @@ def run(ctx):
     from unified_planning.engines.results import ValidationResultStatus
     ok_proofs = ctx.check_props(extra=["theories/Corr/Corr_C03.v"])
     rng = ctx.rng
+    lrng = random.Random(rng.random())     # the long walks draw from their own stream
     nprob = 40 if ctx.quick else 400
     maxlen = 2 if ctx.quick else 3
     cap = 45 if ctx.quick else 160
@@ -107,7 +219,7 @@ def run(ctx):
     stats = {"problems": 0, "skipped": 0, "plans": 0, "valid": 0, "invalid": 0, "empty_plans": 0, "raised": 0,
              "metrics": {}, "valid_with_metric": 0}
     nontrivial = set()
-    gens = [(hp, None) for hp in sx.corpus_problems() + sx.metric_corpus()]
+    gens = [(hp, None) for hp in sx.corpus_problems() + sx.metric_corpus() + long_plan_corpus()]
     for i in range(nprob):
         gens.append((None, {"metrics": True, "max_actions": 2}))
     for pi, (hp, knobs) in enumerate(gens):
@@ -139,10 +251,12 @@ def run(ctx):
             plans.append(tuple(rng.randrange(len(insts)) for _ in range(rng.randint(4, 6))))
         validator = SequentialPlanValidator(environment=problem.environment)
         edited = False
+        lplans = long_plans(gen, insts, sim, lrng)
+        stats["long_plans"] = stats.get("long_plans", 0) + len(lplans)
         plans_round2 = []
         if hp is None and len(plans) > 4:
             plans_round2 = plans[:1] + rng.sample(plans[1:], min(6, len(plans) - 1))
-        for plan in plans + [None] + plans_round2:
+        for plan in plans + lplans + [None] + plans_round2:
             if plan is None:
                 # --- history: EDIT the problem object (one initial value) and validate again with the SAME validator
                 # instance; the answers must be those for the edited problem, not for the one validated before
